@@ -224,8 +224,9 @@ impl RoutingThread {
                     .unwrap();
             }
             Message::Block(_) => {
-                error!("received block message");
-                unreachable!();
+                // blocks are fetched over http, never accepted as a peer message. a peer which
+                // sends one anyway is ignored instead of crashing the node
+                error!("received block message from peer : {:?}. ignoring", peer_index);
             }
         }
     }
